@@ -20,6 +20,22 @@ def sibFind (i : Nat) : List Nat → Option (Nat × List Nat)
   | [] => none
   | j :: rest => if j > i then sibFind i rest else some (j, rest)
 
+/-- one iteration `for i in (256 - tau)..=255` of Algorithm 29 on the state (c, remaining stream) -/
+def sibStep (O : Oracles) (ctest : Bool) (tau : Nat) (hbytes : List Nat) (st : Poly × List Nat) (i : Nat) : M (Poly × List Nat) := do
+  let (c, s) := st
+  -- CTEST: j starts at i and nothing is squeezed
+  let (j, s) ← if ctest then pure (i % 256, s) else
+    match sibFind i s with
+    | some r => pure r
+    | none => throw (Fault.fuel "hashing.rs:sample_in_ball:stream")
+  let cj ← idx "hashing.rs:sample_in_ball:c[j]" c j
+  let c := c.set i cj
+  let index := i + tau - 256
+  let bite ← idx "hashing.rs:sample_in_ball:h[index/8]" hbytes (index / 8)
+  let shifted := bite / 2 ^ (index % 8)
+  let c := c.set j (1 - 2 * Int.ofNat (shifted % 2))
+  pure (c, s)
+
 /-- Algorithm 29 `sample_in_ball::<CTEST>` -/
 def sampleInBall (m : Mode) (O : Oracles) (ctest : Bool) (tau : Int) (rho : List Nat) : M Poly := do
   if tau < 0 then throw (Fault.expect "hashing.rs:sample_in_ball:try_from") else
@@ -27,21 +43,7 @@ def sampleInBall (m : Mode) (O : Oracles) (ctest : Bool) (tau : Int) (rho : List
   if tau > 256 then throw (Fault.overflow "hashing.rs:sample_in_ball:256-tau") else
   let stream := O.h rho (8 + 1360 * O.fuelScale)
   let hbytes := stream.take 8
-  let step := fun (st : Poly × List Nat) (i : Nat) => do
-    let (c, s) := st
-    -- CTEST: j starts at i and nothing is squeezed
-    let (j, s) ← if ctest then pure (i % 256, s) else
-      match sibFind i s with
-      | some r => pure r
-      | none => throw (Fault.fuel "hashing.rs:sample_in_ball:stream")
-    let cj ← idx "hashing.rs:sample_in_ball:c[j]" c j
-    let c := c.set i cj
-    let index := i + tau - 256
-    let bite ← idx "hashing.rs:sample_in_ball:h[index/8]" hbytes (index / 8)
-    let shifted := bite / 2 ^ (index % 8)
-    let c := c.set j (1 - 2 * Int.ofNat (shifted % 2))
-    pure (c, s)
-  let (c, _) ← ((List.range tau).map (fun t => 256 - tau + t)).foldlM step (zeroPoly, stream.drop 8)
+  let (c, _) ← ((List.range tau).map (fun t => 256 - tau + t)).foldlM (sibStep O ctest tau hbytes) (zeroPoly, stream.drop 8)
   dassert m "hashing.rs:sample_in_ball:debug_assert(Alg 29: bad hamming weight (a))" ((c.filter (fun e => e ≠ 0)).length == tau)
   dassert m "hashing.rs:sample_in_ball:debug_assert(Alg 29: bad hamming weight (b))"
     (decide ((c.map (fun e => band .i32 e 1)).foldl (· + ·) 0 = Int.ofNat tau))
